@@ -180,6 +180,9 @@ def generate(ctx):
                 for j, (a, kw) in enumerate(calls):
                     ncol = len(sel)
                     ok_extra = ok_extra and len(a) == ncol + len(extra) and [repr(x_) for x_ in a[ncol:]] == [repr(x_) for x_ in extra] and kw == kwargs
+                    # base values arrive as what ITERATING the column gives (python scalars for a numpy-backed column), not as
+                    # fixed-width numpy scalars (whose arithmetic wraps around in the user function)
+                    ok_extra = ok_extra and all(type(v_).__module__ != "numpy" for c_, v_ in zip(sel, a[:ncol]) if c_ in ("x", "y") or c_ == dup)
                     rowt = []
                     for c, v in zip(sel, a[:ncol]):
                         if c in ("x", "y") or c == dup:
